@@ -75,7 +75,7 @@ theorem history_dependent_without_discipline :
       rewrite := fun s _ => (some ((s "_n").getD (-1)), []) }
   let mk (i : Nat) : RewriteOp Nat Int :=
     { strat := fun acc => if acc.isEmpty then .attempt 0 i else .done, fuel := 2 }
-  refine ⟨⟨[({ name := "bad", rewriteReads := ["_n"] }, b)]⟩, mk 7, mk 0,
+  refine ⟨{ rules := [({ name := "bad", rewriteReads := ["_n"] }, b)] }, mk 7, mk 0,
     ⟨fun _ => Stash.empty, {}, [], 0⟩, ?_⟩
   decide
 
@@ -160,6 +160,35 @@ theorem order_independent_prefix_refuted :
 theorem globals_frozen (g : Globals) (body : SExp) (n : Nat) :
     ∀ p, p ∈ (iterProto n (decorate g body)).1 → p = translate g body :=
   (iterProto_spec n (decorate g body)).2
+
+/-- `globals_frozen` for globals that are *mutable objects*: FALSE for the code as it is (finding C14-N1).
+`ir.tensor(W)` wraps the user's numpy array; `W[...] = 9` after decoration changes every later
+`to_model_proto()`/`to_function_proto()`.  `W = [1]; f = script(x + W); W[...] = 9` -/
+theorem globals_frozen_by_reference_refuted :
+    ¬ ∀ (g : RGlobals) (cells cells' : Cells) (body : SExp),
+        (translateR false g cells body).toProto cells' = (translateR false g cells body).toProto cells := by
+  intro h
+  have := h [("W", .ref 0)] (fun _ => 1) (fun _ => 9) (.add .x (.glob "W"))
+  revert this; decide
+
+/-- What holds for the code as it is: protos are frozen when no global the body mentions is a mutable
+object (numbers, lists — which are converted — but no ndarray / TensorProto). -/
+theorem globals_frozen_partial (g : RGlobals) (cells cells' : Cells) (body : SExp)
+    (h : NoSharedMutablePayload g body) :
+    (translateR false g cells body).toProto cells' = (translateR false g cells body).toProto cells :=
+  translateR_noshared_frozen g cells cells' body h
+
+example : NoSharedMutablePayload [("K", .imm 2), ("W", .ref 0)] (.mul .x (.glob "K")) := by
+  intro n hn c
+  simp only [SExp.globalsOf, List.nil_append, List.mem_singleton] at hn
+  subst hn
+  simp [List.lookup]
+
+/-- With the payload snapshotted when the constant is created (proposed fix
+`proposed_fixes/ready/C14-N1.diff`) the full statement holds: for every later state of every object. -/
+theorem globals_frozen_with_copy (g : RGlobals) (cells cells' : Cells) (body : SExp) :
+    (translateR true g cells body).toProto cells' = (translateR true g cells body).toProto cells :=
+  translateR_copy_frozen g cells cells' body
 
 /-- `to_model_proto()ⁿ`: identical results and the function object unchanged, for every `n`. -/
 theorem to_model_proto_idempotent (n : Nat) (f : OnnxFn) :
@@ -324,7 +353,11 @@ construction), and a target whose result is the fresh-process one. -/
 example :
     let b : RuleBeh Nat Int :=
       { check := fun _ i => (i ≠ 0, [("_n", (i : Int))]), rewrite := fun s _ => (some ((s "_n").getD (-1)), []) }
-    let w : World Nat Int := ⟨[({ name := "good", checkWrites := ["_n"], rewriteReads := ["_n"] }, b)]⟩
+    -- two commuted variants of the rule share one object (owner 0), as `RewriteRuleSet(commute=True)` makes them
+    let w : World Nat Int :=
+      { rules := [({ name := "good", checkWrites := ["_n"], rewriteReads := ["_n"] }, b),
+                  ({ name := "good", checkWrites := ["_n"], rewriteReads := ["_n"] }, b)],
+        owner := fun _ => 0 }
     let mk (i : Nat) : RewriteOp Nat Int :=
       { strat := fun acc => if acc.isEmpty then .attempt 0 i else .done, fuel := 2 }
     let σ₀ : Sigma := ⟨fun _ => Stash.empty, {}, [], 0⟩
